@@ -643,3 +643,17 @@ Proof.
   intros co ps H; induction H as [|[ms d] r [Hc [Hn Hs]] _ IH]; simpl; [reflexivity|].
   simpl in *. rewrite (union_decode_partial co ms d Hc Hn Hs), IH. reflexivity.
 Qed.
+
+(* ------------------------------------------------------------------ *)
+(* TypeVar positions                                                    *)
+Theorem typevar_constraints_win : forall co cs fb fb' d, cs <> [] ->
+  typevar_dec co cs fb d = union_dec co cs d /\ typevar_dec co cs fb d = typevar_dec co cs fb' d.
+Proof. intros co [|c r] fb fb' d H; [congruence | split; reflexivity]. Qed.
+
+Theorem typevar_partial : forall co cs fb d, cs <> [] ->
+  coherent cs d -> none_safe cs d = true -> no_shadow cs d = true ->
+  typevar_dec co cs fb d = ref_union co cs d.
+Proof.
+  intros co cs fb d H Hc Hn Hs. rewrite (proj1 (typevar_constraints_win co cs fb fb d H)).
+  apply union_decode_partial; assumption.
+Qed.
